@@ -808,6 +808,18 @@ class Interp:
             raise Unsupported("arity mismatch calling %s: %d args for %d params" % (fn.name, len(args), len(fn.params)))
         for (loc, _), a in zip(fn.params, args):
             fr.locals[loc] = a
+        # closures without captures are zero-sized: rustc's RemoveZsts drops their assignment, but references to the local remain
+        zc = getattr(fn, "_zst_closures", None)
+        if zc is None:
+            zc = []
+            for loc, t in fn.locals.items():
+                m = re.fullmatch(r"\s*(\{closure@[^}]*\})\s*", t or "")
+                if m:
+                    zc.append((loc, m.group(1)))
+            fn._zst_closures = zc
+        for loc, cid in zc:
+            if loc not in fr.locals:
+                fr.locals[loc] = Agg("closure:" + cid, None, [])
         bb = 0
         st = self.st
         try:
